@@ -259,6 +259,21 @@ def run(ck):
                         td = rv.get("ty")
                         if ts in WID and td in WID and WID[td] < 32 and WID[td] < WID[ts] and has_call_origin(f.origins(rv["a"], deep=True), r"pop_u(32|64)$"):
                             bad.append((ts, td, bi))
+            # ... and pointers, lengths and offsets are added at 64 bits: a 32-bit sum of two arguments wraps (release) or
+            # panics (debug) for regions that cross 2^32, and the wrapped end then passes the memory test
+            narrow_sum = []
+            for bi in sorted(f.reachable()):
+                for st in f.stmts(bi):
+                    rv = st.get("rv", {})
+                    if rv.get("k") == "bin" and re.match(r"^(Add|Mul)", rv["op"]):
+                        pa, pb = op_place(rv["a"]), op_place(rv["b"])
+                        ta = f.locals[pa[0]] if pa and not pa[1] else None
+                        if ta in ("u32", "i32", "u16", "u8") and pb is not None and \
+                                has_call_origin(f.origins(rv["a"], deep=True), r"pop_u(32|64)$") and has_call_origin(f.origins(rv["b"], deep=True), r"pop_u(32|64)$"):
+                            narrow_sum.append(bi)
+            ck.ob("BOUNDS", p, "argument-sums-formed-at-64-bits", not narrow_sum,
+                  "no sum or product of two arguments is formed at 32 bits" if not narrow_sum else
+                  "two arguments are added/multiplied as 32-bit values before widening: the result wraps for regions that cross 2^32", f.loc(narrow_sum[0]) if narrow_sum else f.loc(), nontrivial=False)
             ck.ob("CMP", p, "arguments-not-narrowed-below-32-bits", not bad, "no argument popped from the stack is narrowed below 32 bits" if not bad else
                   "an argument is narrowed %s -> %s before use" % (bad[0][0], bad[0][1]), f.loc(bad[0][2]) if bad else f.loc(), nontrivial=False)
     ck.floor("CMP", "host functions inspected for argument narrowing", nhf, 51)
